@@ -1834,6 +1834,33 @@ fn is_pure_spec_expr(e: &syn::Expr) -> bool {
 }
 
 
+/// R27 (constants): emits the module-level constants `text` mentions (see referenced_consts)
+fn emit_referenced_consts(items: &[syn::Item], text: &TokenStream, provided: &BTreeSet<String>, emitted: &mut BTreeSet<String>, cfg: &CfgEnv, rw: &mut Rewriter, out: &mut String) {
+    let item_refs: Vec<&syn::Item> = items.iter().collect();
+    for mut c in referenced_consts(&item_refs, text, provided, emitted, cfg) {
+        c.vis = syn::parse_quote!(pub);
+        rw.filter_attrs(&mut c.attrs);
+        struct HasCall(bool);
+        impl<'ast> syn::visit::Visit<'ast> for HasCall {
+            fn visit_expr_call(&mut self, _: &'ast syn::ExprCall) { self.0 = true; }
+            fn visit_expr_method_call(&mut self, _: &'ast syn::ExprMethodCall) { self.0 = true; }
+        }
+        let mut hc = HasCall(false);
+        syn::visit::Visit::visit_expr(&mut hc, &c.expr);
+        out.push_str("verus! {\n");
+        if hc.0 {
+            // an initialiser that calls a function is not a specification expression: the constant is kept as an exec
+            // constant whose value is whatever the call returns (nothing is assumed about it)
+            let (n, ty, init) = (&c.ident, &c.ty, &c.expr);
+            out.push_str(&format!("pub exec const {}: {} ensures true {{ {} }}\n", n, ty.to_token_stream(), init.to_token_stream()));
+        } else {
+            out.push_str(&render_item(syn::Item::Const(c)));
+        }
+        out.push_str("}\n");
+        rw.rules.insert("R27".into());
+    }
+}
+
 /// R27 (constants): module-level `const` items of the file that the extracted text mentions and that nobody provides are copied along
 /// (a constant is data: copying it cannot change what the function does).  Returns the rendered items.
 fn referenced_consts(items: &[&syn::Item], text: &TokenStream, provided: &BTreeSet<String>, emitted: &mut BTreeSet<String>, cfg: &CfgEnv) -> Vec<syn::ItemConst> {
@@ -2360,31 +2387,7 @@ fn main() {
                 pending.push((gen.fns.len(), key));
                 gen.fns.push(fo);
                 fn_idx += 1;
-                {
-                    let item_refs: Vec<&syn::Item> = items.iter().collect();
-                    for mut c in referenced_consts(&item_refs, &f.to_token_stream(), &provided_consts, &mut emitted_consts, &cfg) {
-                        c.vis = syn::parse_quote!(pub);
-                        rw.filter_attrs(&mut c.attrs);
-                        struct HasCall(bool);
-                        impl<'ast> syn::visit::Visit<'ast> for HasCall {
-                            fn visit_expr_call(&mut self, _: &'ast syn::ExprCall) { self.0 = true; }
-                            fn visit_expr_method_call(&mut self, _: &'ast syn::ExprMethodCall) { self.0 = true; }
-                        }
-                        let mut hc = HasCall(false);
-                        syn::visit::Visit::visit_expr(&mut hc, &c.expr);
-                        gen.out.push_str("verus! {\n");
-                        if hc.0 {
-                            // an initialiser that calls a function is not a specification expression: the constant is kept as an exec
-                            // constant whose value is whatever the call returns (nothing is assumed about it)
-                            let (n, ty, init) = (&c.ident, &c.ty, &c.expr);
-                            gen.out.push_str(&format!("pub exec const {}: {} ensures true {{ {} }}\n", n, ty.to_token_stream(), init.to_token_stream()));
-                        } else {
-                            gen.out.push_str(&render_item(syn::Item::Const(c)));
-                        }
-                        gen.out.push_str("}\n");
-                        rw.rules.insert("R27".into());
-                    }
-                }
+                emit_referenced_consts(&items, &f.to_token_stream(), &provided_consts, &mut emitted_consts, &cfg, &mut rw, &mut gen.out);
                 gen.out.push_str(&render_item(syn::Item::Fn(f)));
                 gen.out.push('\n');
             }
@@ -2735,6 +2738,7 @@ fn main() {
                             fn_idx += 1;
                         }
                     }
+                    emit_referenced_consts(&items, &im.to_token_stream(), &provided_consts, &mut emitted_consts, &cfg, &mut rw, &mut gen.out);
                     gen.out.push_str(&render_item(syn::Item::Impl(im)));
                     gen.out.push('\n');
                 }
